@@ -322,6 +322,72 @@ def exhaustive_pairs(tier, shard, nshards):
     return gen()
 
 
+# --------------------------------------------------------------------------
+# big chains: individual edge fluxes become tiny (1e-8 and below) simply because there are many states, which is the
+# normal regime of real models; plus argument immutability (a flux routine that rewrites the caller's populations
+# corrupts every later call made with them)
+
+@st.composite
+def big_case(draw):
+    return {"n": draw(st.integers(150, 400)), "seed": draw(st.integers(0, 2 ** 31 - 1)),
+            "nsrc": draw(st.integers(1, 3)), "nsnk": draw(st.integers(1, 3)),
+            "container": draw(st.sampled_from(["ndarray", "ndarray", "ndarray_F", "csr"])),
+            "pops": draw(st.sampled_from(["given", "given", "computed"])),
+            "density": draw(st.sampled_from([1.0, 0.2]))}
+
+
+def run_big(case):
+    rng = np.random.RandomState(case["seed"])            # seed drawn by Hypothesis
+    n = case["n"]
+    Wt = rng.rand(n, n) + 0.05
+    if case["density"] < 1:
+        Wt *= (rng.rand(n, n) < case["density"])
+        for k in range(n):
+            Wt[k, (k + 1) % n] += 0.5
+    Wt = Wt + Wt.T
+    r = Wt.sum(axis=1)
+    T = Wt / r[:, None]
+    pi = r / r.sum()
+    perm = rng.permutation(n)
+    src = sorted(int(x) for x in perm[:case["nsrc"]])
+    snk = sorted(int(x) for x in perm[case["nsrc"]:case["nsrc"] + case["nsnk"]])
+    qf = R.ref_committor(T, src, snk)
+    qb = 1.0 - qf                                         # reversible chain
+    Fref = pi[:, None] * qb[:, None] * T * qf[None, :]
+    np.fill_diagonal(Fref, 0.0)
+    Nref = np.maximum(Fref - Fref.T, 0.0)
+    X = R.to_container(T, case["container"])
+    pops = pi.copy()
+    kw = {"populations": pops} if case["pops"] == "given" else {}
+    Tb = T.copy()
+    F = R.dense_of(tpt.reactive_fluxes(X, src, snk, **kw))
+    N = R.dense_of(tpt.net_fluxes(X, src, snk, **kw))
+    P = np.asarray(tpt.reactive_populations(X, src, snk, **kw)).ravel()
+    require(np.array_equal(pops, pi), "a flux routine modified the caller's populations array")
+    require(np.array_equal(R.dense_of(X), Tb), "a flux routine modified the caller's transition matrix")
+    rtol = 1e-6 if case["pops"] == "given" else 1e-4      # computed pi: eigen-solver accuracy ~ eps/gap
+    scale = np.maximum(Fref, Fref.T)
+    bad = np.abs(F - Fref) > rtol * scale + 1e-300
+    require(not bad.any(), "reactive flux differs from its definition on a big chain (relative tolerance per edge)",
+            n=n, worst=float(np.max(np.abs(F - Fref) / (scale + 1e-300))), edge=np.argwhere(bad)[:3].tolist(),
+            got=F[bad][:3].tolist(), want=Fref[bad][:3].tolist())
+    bad = np.abs(N - Nref) > rtol * scale + 1e-300
+    require(not bad.any(), "net flux is not the positive part of flux - flux^T on a big chain (relative tolerance per edge)",
+            n=n, edges=int(bad.sum()), got=N[bad][:3].tolist(), want=Nref[bad][:3].tolist(),
+            smallest_true_net=float(Nref[Nref > 0].min()) if (Nref > 0).any() else 0.0)
+    inter = [i for i in range(n) if i not in src and i not in snk]
+    inflow, outflow = N.sum(axis=0), N.sum(axis=1)
+    require(np.all(np.abs(inflow[inter] - outflow[inter]) <= 1e-6 * np.maximum(inflow[inter], outflow[inter]) + 1e-300),
+            "net flux not conserved at an intermediate state of a big chain",
+            worst=float(np.max(np.abs(inflow[inter] - outflow[inter]))))
+    # second call with the SAME argument objects gives the same answer
+    P2 = np.asarray(tpt.reactive_populations(X, src, snk, **kw)).ravel()
+    require(np.array_equal(P, P2), "reactive_populations called twice on the same arguments gave different values")
+    tiny = int(((Nref > 0) & (Nref < 1e-8)).sum())
+    return Info(tiny > 0, ["big_container=" + case["container"], "big_pops=" + case["pops"],
+                           "edges_below_1e-8=%s" % ("0" if tiny == 0 else "some" if tiny < 100 else "many")])
+
+
 CLAUSES = [
     Clause("flux_definition", flux_case(), run_flux, quick=1500, thorough=12000, exhaustive=exhaustive_pairs,
            doc="f_ij = pi_i q-_i T_ij q+_j off the diagonal, 0 on it"),
@@ -333,6 +399,8 @@ CLAUSES = [
            doc="probability vector, zero on sources and sinks, proportional to pi q+ q-"),
     Clause("containers_agree", multi_case(), run_containers, quick=200, thorough=2000,
            doc="every sparse container gives the ndarray values"),
+    Clause("big_chain_relative", big_case(), run_big, quick=24, thorough=400,
+           doc="definition, net flux, conservation with per-edge relative tolerance on 150-400 state chains; arguments untouched"),
     Clause("flux_definition_large", flux_case(max_n=25), run_flux, quick=0, thorough=2500),
     Clause("conservation_large", flux_case(max_n=25), run_conservation, quick=0, thorough=2500),
     Clause("reactive_populations_large", flux_case(max_n=25, reactive_only=True), run_pops, quick=0, thorough=1500),
